@@ -7,7 +7,7 @@ use layout21raw as raw;
 use serde_json::{json, Value};
 
 pub fn commands() -> Vec<(&'static str, CmdFn)> {
-    vec![("gds_to_raw", gds_to_raw), ("raw_gds_rt", raw_gds_rt)]
+    vec![("gds_to_raw", gds_to_raw), ("raw_gds_rt", raw_gds_rt), ("raw_proto", raw_proto)]
 }
 
 fn ipt(v: &Value) -> GdsPoint { GdsPoint::new(v[0].as_i64().unwrap() as i32, v[1].as_i64().unwrap() as i32) }
@@ -140,4 +140,41 @@ fn raw_gds_rt(case: &Value) -> Value {
     };
     json!({"id": id(case), "outcome":"ok", "units": format!("{:?}", lib.units), "name": lib.name, "before": before, "exported": exported,
            "units_gds": units_gds, "back": back})
+}
+
+/// C14: {lib (abstract raw), proto (the message RawProto.tla assigns)}
+fn raw_proto(case: &Value) -> Value {
+    let lib = raw_lib_of(&case["lib"]);
+    let before = raw_lib_json(&lib).unwrap();
+    let mut out = json!({"id": id(case), "outcome":"ok", "before": before});
+    // raw -> proto
+    let p = match guarded(|| lib.to_proto()) {
+        Err(m) => { out["export"] = json!({"outcome":"panic","msg":m}); None }
+        Ok(Err(e)) => { out["export"] = json!({"outcome":"err","msg":err_str(e)}); None }
+        Ok(Ok(p)) => { out["export"] = json!({"outcome":"ok","proto": proto_json(&p)}); Some(p) }
+    };
+    // proto -> raw (round trip of the crate's own message)
+    if let Some(p) = p {
+        out["back"] = match guarded(|| raw::Library::from_proto(p, None)) {
+            Err(m) => json!({"outcome":"panic","msg":m}),
+            Ok(Err(e)) => json!({"outcome":"err","msg":err_str(e)}),
+            Ok(Ok(l2)) => json!({"outcome":"ok","lib": raw_lib_json(&l2).unwrap()}),
+        };
+    }
+    // the specification's message -> raw -> proto must be the same message
+    if !case["proto"].is_null() && getb(case, "in_schema") {
+        let sp = proto_of(&case["proto"]);
+        // the message's layer/purpose NUMBERS get their meaning from the layer table, as for any vlsir.raw consumer
+        let table = layout21utils::Ptr::new(std_layers());
+        out["canon"] = match guarded(|| raw::Library::from_proto(sp, Some(table))) {
+            Err(m) => json!({"outcome":"import-panic","msg":m}),
+            Ok(Err(e)) => json!({"outcome":"import-err","msg":err_str(e)}),
+            Ok(Ok(l)) => match guarded(|| l.to_proto()) {
+                Err(m) => json!({"outcome":"export-panic","msg":m}),
+                Ok(Err(e)) => json!({"outcome":"export-err","msg":err_str(e)}),
+                Ok(Ok(p2)) => json!({"outcome":"ok","proto": proto_json(&p2)}),
+            },
+        };
+    }
+    out
 }
